@@ -27,6 +27,11 @@ open AnnVerif.Crash
 /-- the window: block stored, application committed, state not saved -/
 def InWindow (d : Disk) : Prop := d.store = true ∧ d.app = true ∧ d.state = false
 
+theorem orderedB_iff (d : Disk) : orderedB d = true ↔ Ordered d := by
+  rcases d with ⟨m, p, lc, sc, st, i, t, a, r, s⟩
+  cases st <;> cases a <;> cases s <;> cases t <;> cases m <;> cases p <;> cases sc <;> cases lc <;> cases i <;>
+    simp [orderedB, Ordered]
+
 /-- K1 -/
 theorem ordered_startup (d : Disk) (h : Ordered d) :
     startup false d = .ok ∨ (InWindow d ∧ startup false d = .appAhead) := by
